@@ -208,6 +208,15 @@ async fn episode(p: &EpParams) -> EpReport {
             classes.push(format!("{}+{}", pn, an));
             msgs.push(Msg { tag: String::new(), data, attrs });
         }
+        // every third publish is a client that forwards messages it received elsewhere, output-only
+        // fields and all: message_id (ids of earlier messages, when there are any) and publish_time
+        if rng.chance(1, 3) {
+            let mut earlier: Vec<String> = known.keys().cloned().collect();
+            earlier.sort();
+            let fwd: Vec<String> = (0..msgs.len()).map(|i| earlier.get(i).cloned().unwrap_or_else(|| format!("{}", 8589934593u64 + i as u64))).collect();
+            *w.forward_ids.lock().unwrap() = fwd;
+            rep.inc("publishes_with_prefilled_message_id");
+        }
         let ids = match cx.publish(&t, &msgs).await {
             Ok(ids) => ids,
             Err(e) => {
